@@ -959,7 +959,7 @@ func main() {
 		Monitor:  monitor,
 		Extra: func(r *hxlib.Run) map[string]any {
 			cleanupScratch()
-			return map[string]any{"fs_oracle": "snapshot(names,types,modes,sizes,sha1) + inotify(open,read,write,attrib,create,delete,move) on every directory outside the root"}
+			return map[string]any{"fs_oracle": "snapshot(names,types,modes,sizes,sha1) + inotify(open,read of files and of directory listings,write,attrib,create,delete,move) on every directory outside the root (parent and ancestors, siblings with decoys)"}
 		},
 	})
 }
